@@ -241,4 +241,16 @@ SatUndef(p, W, N, S) ==
   IF p.op = "pred" THEN HasUndef(Val(p.l, W, N, S)) \/ HasUndef(Val(p.r, W, N, S))
   ELSE IF p.op \in Un1 THEN SatUndef(p.l, W, N, S)
   ELSE SatUndef(p.l, W, N, S) \/ SatUndef(p.r, W, N, S)
+
+
+---------------------------------------------------------------------------
+\* Two ASTs denote the same signal transformer on every short trace over Vs.  Used by the trace specifications when the AST
+\* read back from the parser is not literally the expected one: a parser that folds constants, shares or re-associates nodes
+\* builds a different tree for the same meaning, which no property forbids - only a tree that means something else is a defect
+SemEqOn(p, q, vs, Vs, S, M) ==
+  LET maxN == IF Cardinality(vs) <= 1 THEN 3 ELSE IF Cardinality(vs) = 2 THEN 2 ELSE 1 IN
+  \A n \in 1..maxN : \A W \in [vs -> [1..n -> Vs]] : Sig(p, W, n, S, M) = Sig(q, W, n, S, M)
+SemEq(p, q, S, M) == LET vs == VarsOf(p) \cup VarsOf(q) IN
+                     IF vs = {} THEN Sig(p, <<>>, 2, S, M) = Sig(q, <<>>, 2, S, M)
+                     ELSE SemEqOn(p, q, vs, {-2 * S, S, 3 * S}, S, M)
 =============================================================================
